@@ -194,7 +194,8 @@ func encCompact(b []byte, v Val, o Options) []byte {
 			return append(b, 0)
 		}
 		b = uleb(b, uint64(len(v.Pairs)), o.PadVarints)
-		b = append(b, cmpCode[v.Key]<<4|cmpCode[v.Value]) // the 1-or-2 latitude for BOOL is only stated for list and set headers
+		// key and value types are element types: the 1-or-2 latitude for BOOL applies (the Java implementation writes 1)
+		b = append(b, elemCode(v.Key, o)<<4|elemCode(v.Value, o))
 		for _, kv := range v.Pairs {
 			b = encCompact(b, kv[0], o)
 			b = encCompact(b, kv[1], o)
